@@ -56,7 +56,11 @@ func (items OrderSchemaItems) Less(i, j int) (ret bool) {
 					ret = reflect.ValueOf(ii).String() < reflect.ValueOf(ij).String()
 				}
 			}()
-			return ii < ij
+			if ii != ij {
+				return ii < ij
+			}
+			// equal x-order: fall back to the name, so that the ordering is total
+			return items[i].Name < items[j].Name
 		}
 		return true
 	} else if okj {
